@@ -10,7 +10,7 @@ import numpy as np
 from common import R, fl, relclose
 
 LEAN_MODULES = ["PyomaVerif.Props.C14", "PyomaVerif.Mutants.C14", "PyomaVerif.Props.C03Split", "PyomaVerif.Props.C14Algs",
-                "PyomaVerif.Mutants.C14Algs"]
+                "PyomaVerif.Mutants.C14Algs", "PyomaVerif.Props.C14Own", "PyomaVerif.Mutants.C14Own"]
 THEOREMS = [
     "PV.C14.C14_invariant_single",
     "PV.C14.C14_invariant_multi",
@@ -68,6 +68,24 @@ THEOREMS = [
     "PV.C14.Mutants.dupKw_rejects_every_key",
     "PV.C14.Mutants.pinned_all",
     "PV.C14.Mutants.current_ok",
+    # "no call ever modifies the arrays the user passed in or the stored initial copy": buffer identities (Model/PrepOwn.lean,
+    # ops prep_{single,multi}_own, stream own:*)
+    "PV.C14.C14_own_values_single",
+    "PV.C14.C14_own_values_multi",
+    "PV.C14.C14_init_never_written_single",
+    "PV.C14.C14_init_never_written_multi",
+    "PV.C14.C14_no_write_to_user_or_init_single",
+    "PV.C14.C14_no_write_to_user_or_init_multi",
+    "PV.C14.C14_no_write_repaired_single",
+    "PV.C14.C14_no_write_repaired_multi",
+    "PV.C14.C14_overwrite_hits_user_single",
+    "PV.C14.C14_overwrite_hits_user_multi",
+    "PV.C14.C14_data_owner_single_examples",
+    "PV.C14.Mutants.noDeepcopy_init_written",
+    "PV.C14.Mutants.noDeepcopy_data_is_init",
+    "PV.C14.Mutants.noDeepcopy_multi_init_written",
+    "PV.C14.Mutants.current_keeps_init_apart",
+    "PV.C14.Mutants.forwardOverwrite_hits_user",
 ]
 RULE = (
     "correspondence: every operation sequence over a randomly drawn alphabet of ~9 concrete calls (2-3 decimations with "
@@ -88,13 +106,20 @@ RULE = (
     "length after the alphabet's decimation, cut-off legal for fs0 but not fs0/q, unknown keyword, bad ftype/type, wrong Wn "
     "arity, q = 0, q = 1 FIR/IIR). named stream: 5 algorithm objects over 3 names added 1-3 per call at different times "
     "(same object again, new object under a present name) on real objects vs prep_*_named: after every call what EVERY "
-    "object holds (data/fs/dt or nothing) and self.algorithms (order, which object under which name)"
+    "object holds (data/fs/dt or nothing) and self.algorithms (order, which object under which name). own stream (every "
+    "sequence of the first two streams, after every call; the detrend letters carry overwrite_data=True/False): the Lean "
+    "buffer-identity machine (prep_{single,multi}_own) against the real object - np.shares_memory of data / datasets[i] / "
+    "_initial_* / the user's arrays / the buffers held before the call / a freshly bound algorithm's data vs the model's "
+    "owner tags (user, init, fresh) and same-buffer flags, and byte hashes of the user's arrays, of the initial copies and "
+    "of the previously held buffers vs the buffers the model says the call wrote; plus PreGER detrend calls that raise on "
+    "a later, shorter record after having written an earlier one"
 )
 EXTRA_TRUSTED = [
     "scipy.signal.decimate / detrend / butter / sosfiltfilt are uninterpreted constructors of the model's terms; only their "
     "calling contract (which keyword sets raise which exception class; output length ceil(len/q)) is modelled, and that "
     "contract is re-checked against scipy on every correspondence run",
-    "aliasing / in-place mutation of numpy buffers is monitored by byte hashes at run time, not proved",
+    "which scipy calls return a new array and which write into their argument (detrend, linear branch, overwrite_data truthy, "
+    "float input) is a calling contract of Model/PrepOwn.lean, re-checked against the real objects by the own stream",
 ]
 ASSUMPTIONS = [
     "decimation axis is always 0 (the only value of `axis` the harness passes explicitly)",
@@ -110,6 +135,10 @@ MINLEN = 40
 # "current"; the other two are only for diagnosing a tree with a different set of repairs.
 VARIANT = os.environ.get("C14_MODEL_VARIANT", "current")
 DATA_TOL = 1e-10
+# which statements the buffer-identity machine mirrors: "current" (BaseSetup._detrend_data forwards overwrite_data to scipy:
+# today's tree) or "repaired" (after proposed_fixes/fix_g11.diff: accepted, not forwarded)
+OWN = os.environ.get("C14_OWN_VARIANT", "current")
+OW_SIG = "mutated-user-array:detrend(overwrite_data=True)"
 
 
 # ----------------------------------------------------------------------------- real objects
@@ -197,7 +226,7 @@ def op_label(op):
     if k == "decimate":
         return "dec%d%s" % (op["q"], "".join(sorted(x[0] for x in op.get("kw", {}))))
     if k == "detrend":
-        return "det" + "".join(sorted(x[0] for x in op.get("kw", {})))
+        return "det" + "".join(sorted(x[0] for x in op.get("kw", {}))) + ("!" if op.get("kw", {}).get("overwrite_data") else "")
     if k == "filter":
         return "filt-" + op["btype"][:5] + ("" if op.get("order") is not None else "-dflt")
     return k
@@ -247,7 +276,7 @@ def apply_real(obj, cfg, op, serial):
         return type(e).__name__, None
 
 
-def gen_alphabet(ctx, cfg, qmax_total):
+def gen_alphabet(ctx, cfg, qmax_total, overwrite=True):
     """a small set of concrete in-domain calls; exhaustive enumeration is over this alphabet"""
     rng = ctx.rng
     fs0 = cfg.fs0
@@ -275,6 +304,11 @@ def gen_alphabet(ctx, cfg, qmax_total):
             ]
         ),
     ]
+    if overwrite:  # scipy's documented `overwrite_data` (forwarded by _detrend_data(**kwargs)): decides WHERE the result goes
+        for d in dets:
+            r = rng.random()
+            if r < 0.6:
+                d["kw"] = dict(d.get("kw", {}), overwrite_data=(r < 0.45))
     u = rng.uniform(0.015, 0.22)
     lo = rng.uniform(0.01, 0.08)
     hi = lo + rng.uniform(0.03, 0.12)
@@ -360,6 +394,10 @@ def gen_alphabet_malformed(ctx, cfg):
             {"k": "filter", "Wn": [fs0 * 0.05, fs0 * 0.9], "order": 2, "btype": "bandstop"},
         ]
     )
+    if cfg.cls == "single":  # a failing SingleSetup call writes nothing; PreGER: see corr_own_partial
+        for d in (det_eq, det_over, det_bad):
+            if rng.random() < 0.6:
+                d["kw"] = dict(d["kw"], overwrite_data=rng.random() < 0.8)
     return [dec_ok, dec_bad, dec_q, det_eq, det_over, det_bad, filt_edge, filt_bad, {"k": "rollback"}]
 
 
@@ -488,6 +526,7 @@ def corr_sequence(ctx, cfg, seq, te, frozen):
     recs = ctx.model("prep_single" if cfg.cls == "single" else "prep_multi", ops=mops, variant=VARIANT, **margs)
     # the SPECIFICATION fold of the invariant theorems (right-hand side), for every prefix
     srecs = ctx.model("prep_spec", n0=[int(a.shape[0]) for a in cfg.arrays], fs0=R(cfg.fs0), ops=mops)
+    orecs = ctx.model("prep_single_own" if cfg.cls == "single" else "prep_multi_own", ops=mops, variant=VARIANT, own=OWN, **margs)
     py_qs = []  # Python-side bookkeeping: factors of the decimations the REAL object accepted since the start / last rollback
     obj = cfg.make()
     te.next_sequence()
@@ -495,6 +534,7 @@ def corr_sequence(ctx, cfg, seq, te, frozen):
     worst = 0.0
     for step in range(len(seq) + 1):
         alg = None
+        snap = own_snapshot(obj, cfg)
         if step == 0:
             outcome, fn = "ok", "__init__"
         else:
@@ -582,7 +622,16 @@ def corr_sequence(ctx, cfg, seq, te, frozen):
             [(b[0], b[1]) for b in sbad],
             (cfg.cls, cfg.layout, tuple(labels)),
         )
-        if bad or sbad:
+        obad = own_compare(ctx, cfg, obj, snap, orecs[step], outcome, alg, seq[:step])
+        ctx.corr(
+            "own:" + fn,
+            not obad,
+            {"cfg": cfg.describe(), "ops": seq[:step]},
+            [(b[0], b[2]) for b in obad],
+            [(b[0], b[1]) for b in obad],
+            (cfg.cls, cfg.layout, tuple(labels)),
+        )
+        if bad or sbad or obad:
             break  # states have diverged; later comparisons of this sequence carry no information
     ctx.dist["corr_worst_array_rel_diff"] = max(ctx.dist.get("corr_worst_array_rel_diff", 0.0), worst)
 
@@ -633,12 +682,150 @@ def spec_compare(ctx, cfg, obj, te, sp, op, outcome, py_qs):
     return bad, py_qs
 
 
+# ----------------------------------------------------------------------------- buffer identities (own stream)
+def own_snapshot(obj, cfg):
+    """references to (not copies of) the buffers the object holds before a call, with their byte hashes"""
+    if cfg.cls == "single":
+        ds, ini = [obj.data], [obj._initial_data]
+    else:
+        ds, ini = list(obj.datasets), list(obj._initial_datasets)
+    return {"ds": ds, "ini": ini, "h_ds": [_h(a) for a in ds], "h_ini": [_h(a) for a in ini], "h_user": [_h(a) for a in cfg.arrays]}
+
+
+def _owner(a, users, inits):
+    for j, u in enumerate(users):
+        if np.shares_memory(a, u):
+            return "user", j
+    for i in inits:
+        if np.shares_memory(a, i):
+            return "init", None
+    return "fresh", None
+
+
+def own_compare(ctx, cfg, obj, snap, m, outcome, alg, prefix):
+    """the real object's buffers (np.shares_memory, byte hashes around the call) vs the model's identities"""
+    bad = []
+
+    def cmp(name, real, mod):
+        if real != mod:
+            bad.append((name, real, mod))
+
+    def cmp_wrote(name, real, mod):
+        # bytes changed => the model must say "written"; the converse fails only when the in-place result equals the input
+        # bit for bit (detrending an already detrended record): counted, and the same-buffer flags are still compared
+        if real != mod:
+            redet = any(o["k"] == "detrend" for o in prefix[:-1])
+            if isinstance(real, list):
+                soft = redet and all((not r) or w for r, w in zip(real, mod)) and len(real) == len(mod)
+            else:
+                soft = redet and mod and not real
+            if soft:
+                ctx.count("own_write_invisible_bitwise_noop")
+            else:
+                bad.append((name, real, mod))
+
+    cmp("outcome", outcome, m["outcome"])
+    users = cfg.arrays
+    wrote_user = [_h(a) != h for a, h in zip(users, snap["h_user"])]
+    wrote_prev = [_h(a) != h for a, h in zip(snap["ds"], snap["h_ds"])]
+    wrote_init = any(_h(a) != h for a, h in zip(snap["ini"], snap["h_ini"]))
+    if cfg.cls == "single":
+        ini = obj._initial_data
+        own, _ = _owner(obj.data, users, [ini])
+        cmp("data_owner", own, m["data_owner"])
+        cmp("data_shares_user", bool(np.shares_memory(obj.data, users[0])), m["data_shares_user"])
+        cmp("data_shares_init", bool(np.shares_memory(obj.data, ini)), m["data_shares_init"])
+        cmp("init_shares_user", bool(np.shares_memory(ini, users[0])), m["init_shares_user"])
+        cmp("data_same_buffer", bool(np.shares_memory(obj.data, snap["ds"][0])), m["data_same_buffer"])
+        cmp("init_same_buffer", bool(np.shares_memory(ini, snap["ini"][0])), m["init_same_buffer"])
+        cmp("data_is_prev_init", bool(np.shares_memory(obj.data, snap["ini"][0])), m["data_is_prev_init"])
+        cmp_wrote("wrote_prev_data", wrote_prev[0], m["wrote_prev_data"])
+        cmp_wrote("wrote_user", wrote_user[0], m["wrote_user"])
+        cmp("wrote_init", wrote_init, m["wrote_init"])
+        if alg is not None:
+            cmp("bound_is_data", alg.data is obj.data, m["bound_is_data"])
+            cmp("bound_owner", _owner(alg.data, users, [ini])[0], m["bound_owner"])
+            ctx.count("own_bound_" + str(m["bound_owner"]))
+        ctx.count("own_data_" + str(m["data_owner"]))
+        if m["wrote_user"]:
+            ctx.count("own_wrote_user")
+        elif m["wrote_prev_data"]:
+            ctx.count("own_wrote_private_buffer")
+    else:
+        inis = list(obj._initial_datasets)
+        own = [_owner(a, users, inis) for a in obj.datasets]
+        cmp("ds_owner", [o[0] for o in own], m["ds_owner"])
+        cmp("ds_user_index", [o[1] for o in own], m["ds_user_index"])
+        cmp("ds_same_buffer", [bool(np.shares_memory(a, b)) for a, b in zip(obj.datasets, snap["ds"])], m["ds_same_buffer"])
+        cmp("ds_is_prev_init", [bool(np.shares_memory(a, b)) for a, b in zip(obj.datasets, snap["ini"])], m["ds_is_prev_init"])
+        cmp("init_same_buffer", [bool(np.shares_memory(a, b)) for a, b in zip(inis, snap["ini"])], m["init_same_buffer"])
+        cmp("init_owner", [_owner(a, users, [a])[0] for a in inis], m["init_owner"])
+        cmp_wrote("wrote_prev_ds", wrote_prev, m["wrote_prev_ds"])
+        cmp_wrote("wrote_user", wrote_user, m["wrote_user"])
+        cmp("wrote_init", wrote_init, m["wrote_init"])
+        # the split handed to algorithms is built with fancy indexing: new buffers every time
+        for i, sp in enumerate(obj.data):
+            for key in ("ref", "mov"):
+                if _owner(sp[key], users, inis + list(obj.datasets))[0] != "fresh":
+                    bad.append((f"data[{i}].{key}", "shares memory with a user array / initial copy / datasets", "fresh"))
+        for t in set(m["ds_owner"]):
+            ctx.count("own_ds_" + t)
+        if any(m["wrote_user"]):
+            ctx.count("own_wrote_user")
+        elif any(m["wrote_prev_ds"]):
+            ctx.count("own_wrote_private_buffer")
+    return bad
+
+
+def corr_own_partial(ctx):
+    """MultiSetup_PreGER.detrend_data(overwrite_data=True, bp=[b]) with b beyond the length of a LATER record only: the call
+    raises ValueError and has already detrended the earlier records in place (the value model cannot say so: own layer only)"""
+    g = ctx.nprng()
+    rng = ctx.rng
+    for _ in range(ctx.n(6, 30)):
+        k = rng.randint(2, 3)
+        lens = [rng.randint(150, 400) for _ in range(k)]
+        short = rng.randrange(1, k)  # the first record that is too short for the breakpoint
+        lens[short] = rng.randint(60, 100)
+        for i in range(short):
+            lens[i] = max(lens[i], 150)
+        b = rng.randint(lens[short] + 1, 149)
+        nchs = [rng.randint(2, 4) for _ in range(k)]
+        arrays = [g.standard_normal((n, c)) + rng.uniform(1, 3) * np.arange(n)[:, None] / n for n, c in zip(lens, nchs)]
+        cfg = Cfg("preger", rng.choice([100.0, 960.0]), arrays, [[rng.randrange(c)] for c in nchs], layout=f"partial/{k}sets")
+        pre = rng.choice([[], [{"k": "rollback"}], [{"k": "detrend", "kw": {"type": "constant", "overwrite_data": True}}]])
+        seq = pre + [{"k": "detrend", "kw": {"overwrite_data": True, "bp": [b]}}]
+        orecs = ctx.model("prep_multi_own", ops=[op_to_model(o) for o in seq], variant=VARIANT, own=OWN, **cfg.model_args())
+        obj = cfg.make()
+        labels = []
+        for step in range(len(seq) + 1):
+            snap = own_snapshot(obj, cfg)
+            outcome = "ok"
+            if step:
+                outcome, _ = apply_real(obj, cfg, seq[step - 1], step)
+                labels.append(op_label(seq[step - 1]))
+            obad = own_compare(ctx, cfg, obj, snap, orecs[step], outcome, None, seq[:step])
+            ctx.corr(
+                "own:MultiSetup_PreGER.detrend_data[raises-after-writing]",
+                not obad,
+                {"cfg": cfg.describe(), "ops": seq[:step]},
+                [(x[0], x[2]) for x in obad],
+                [(x[0], x[1]) for x in obad],
+                ("preger-partial", k, short, tuple(labels)),
+            )
+            if obad:
+                break
+        ctx.count("own_partial_" + ("after-" + pre[0]["k"] if pre else "first-call"))
+
+
 # ----------------------------------------------------------------------------- add_algorithms by name
 def gen_named_sequence(ctx, cfg):
     """preprocessing calls interleaved with add_algorithms(*algs) over a pool of 5 algorithm objects carrying 3 names:
     several objects per call, the same object re-added later, a NEW object under a name already present"""
     rng = ctx.rng
-    alpha = [o for o in gen_alphabet(ctx, cfg, 30) if o["k"] != "add"]
+    # no overwrite_data here: this stream compares what EVERY earlier-bound object holds after every call with the model's
+    # TERM, and an in-place call changes the array an earlier object shares (identity is the business of the own stream)
+    alpha = [o for o in gen_alphabet(ctx, cfg, 30, overwrite=False) if o["k"] != "add"]
     pool = [[oid, rng.randrange(3)] for oid in range(5)]
     for _ in range(50):
         L = rng.randint(5, 8)
@@ -848,8 +1035,8 @@ def sampled_sequences(ctx, cfg, count, malformed):
 
 def correspondence(ctx):
     for cfg, alpha, L, tag in plan(ctx, "corr"):
-        te = TermEval(cfg.arrays)
         frozen = [a.copy() for a in cfg.arrays]
+        te = TermEval(frozen)  # private copies: an in-place call of the real object must not reach the reference evaluation
         if tag.startswith("exhaustive"):
             seqs = enumerate_sequences(alpha, L)
             ctx.count(f"corr_{tag}_L{L}_{cfg.cls}")
@@ -861,13 +1048,15 @@ def correspondence(ctx):
             if tag.startswith("exhaustive") and (seq_min_len(cfg, seq) < MINLEN or not tie_free(cfg, seq)):
                 ctx.skipped += 1
                 continue
-            corr_sequence(ctx, cfg, seq, te, frozen)
+            try:
+                corr_sequence(ctx, cfg, seq, te, frozen)
+            finally:  # detrend_data(overwrite_data=True) writes the user's arrays: every sequence starts from the same bytes
+                for a, f in zip(cfg.arrays, frozen):
+                    np.copyto(a, f)
             ctx.count(f"corr_sequences_{tag}")
-        for a, f in zip(cfg.arrays, frozen):
-            if not np.array_equal(a, f):
-                ctx.notes.append("user array changed during correspondence (see oracle monitors)")
     correspondence_named(ctx)
     correspondence_ctor(ctx)
+    corr_own_partial(ctx)
 
 
 # ----------------------------------------------------------------------------- oracle (from the statement)
@@ -899,8 +1088,11 @@ class Expect:
                 self.fs = self.fs / op["q"]
                 self.last_q = op["q"]
             elif k == "detrend":
-                new = [signal.detrend(a, axis=0, **{x: v for x, v in op.get("kw", {}).items() if x != "axis"}) for a in self.arrays]
-                self.stale_last = [signal.detrend(a, axis=0, **{x: v for x, v in op.get("kw", {}).items() if x != "axis"}) for a in self.stale]
+                # the statement is about VALUES: the reference never detrends in place (its arrays may be its own initial copies);
+                # scipy only tests the truth value of overwrite_data, so dropping it cannot change which calls raise
+                kw = {x: v for x, v in op.get("kw", {}).items() if x not in ("axis", "overwrite_data")}
+                new = [signal.detrend(a, axis=0, **kw) for a in self.arrays]
+                self.stale_last = [signal.detrend(a, axis=0, **kw) for a in self.stale]
                 self.arrays = new
             elif k == "filter":
                 wn = op["Wn"][0] if len(op["Wn"]) == 1 else list(op["Wn"])
@@ -947,10 +1139,19 @@ def _cmp_handed(cfg, got, want):
 
 
 def oracle_sequence(ctx, cfg, seq, sigcount):
+    pristine = [a.copy() for a in cfg.arrays]
+    try:
+        _oracle_sequence(ctx, cfg, seq, sigcount, pristine)
+    finally:  # a call that wrote the user's arrays must not leak into the next sequence on the same configuration
+        for a, f in zip(cfg.arrays, pristine):
+            np.copyto(a, f)
+
+
+def _oracle_sequence(ctx, cfg, seq, sigcount, pristine):
     def viol(sig, what, step, observed=None, expected=None):
         sigcount[sig] = sigcount.get(sig, 0) + 1
         if sigcount[sig] <= 2:
-            ctx.violation(sig, what, {"cfg": cfg.describe(), "ops": seq[:step], "arrays": [a.tolist() for a in cfg.arrays] if sum(a.size for a in cfg.arrays) < 4000 else None}, observed, expected)
+            ctx.violation(sig, what, {"cfg": cfg.describe(), "ops": seq[:step], "arrays": [a.tolist() for a in pristine] if sum(a.size for a in pristine) < 4000 else None}, observed, expected)
 
     cname = cfg.cls
     user_h = [_h(a) for a in cfg.arrays]
@@ -980,8 +1181,20 @@ def oracle_sequence(ctx, cfg, seq, sigcount):
                 return
             # monitors: user arrays and stored initial copy
             if [_h(a) for a in cfg.arrays] != user_h or (cfg.ref_ind is not None and json.dumps(cfg.ref_ind) != ref_json):
-                viol(f"{cname}:mutated-user-array:{kind}", f"{kind} modified an array (or ref_ind) passed in by the user", step)
-                failed = True
+                if kind == "detrend" and op.get("kw", {}).get("overwrite_data") and json.dumps(cfg.ref_ind) == ref_json:
+                    # the caller asked scipy for in-place work and the object still held the caller's own array: the values
+                    # of the object are as stated, so record and keep following the history (from the new bytes)
+                    worst = max(float(np.abs(a - f).max()) for a, f in zip(cfg.arrays, pristine))
+                    viol(
+                        f"{cname}:{OW_SIG}",
+                        f"detrend_data(**{op['kw']}) detrended the array(s) the user passed to the constructor in place "
+                        f"(max change {worst:.3g}); the property says no call modifies them",
+                        step, "user array modified", "user array untouched",
+                    )
+                    user_h = [_h(a) for a in cfg.arrays]
+                else:
+                    viol(f"{cname}:mutated-user-array:{kind}", f"{kind} modified an array (or ref_ind) passed in by the user", step)
+                    failed = True
             if init_copy_hash(obj, cfg) != init_h:
                 viol(f"{cname}:mutated-initial-copy:{kind}", f"{kind} changed the stored initial copy (_initial_*)", step)
                 failed = True
